@@ -451,7 +451,7 @@ def run(chk):
         chk.violation(what, payload, failing_input=fi)
     chk.coverage["failing_cases"] = sum(1 for f in found if f[1])
     chk.coverage["disagreeing_cases"] = sum(1 for f in found if not f[1])
-    chk.coverage["traces_validated_against_impl"] = len(hists)
+    chk.coverage["traces_validated_against_impl"] = len(hists) + len(thr_ops)
     chk.coverage["distinct_nontrivial"] = len(distinct)
     chk.coverage["corpus_scenarios"] = n_corpus
     chk.coverage["race_rounds"] = len(race_rounds)
